@@ -34,14 +34,14 @@ import (
 )
 
 type ckStream struct {
-	id     int
-	from   uint64
-	index  uint64
-	chunks []pb.Chunk
-	files  map[string][]byte // base name -> source bytes
-	nMain  int               // number of chunks of the main file
-	streamed bool            // produced by the real rsm.ChunkWriter (on-disk state machine streaming)
-	hsz    int               // streamed: length of the marshalled header inside the header block
+	id       int
+	from     uint64
+	index    uint64
+	chunks   []pb.Chunk
+	files    map[string][]byte // base name -> source bytes
+	nMain    int               // number of chunks of the main file
+	streamed bool              // produced by the real rsm.ChunkWriter (on-disk state machine streaming)
+	hsz      int               // streamed: length of the marshalled header inside the header block
 }
 
 // ckSink collects what the real rsm.ChunkWriter hands to the transport
@@ -99,34 +99,34 @@ type ckTracked struct {
 }
 
 type ckEv struct {
-	T       int         `json:"t"`
-	I       int         `json:"i"`
-	Op      string      `json:"op"`
-	S       int         `json:"s"`
-	From    uint64      `json:"from"`
-	Index   uint64      `json:"index"`
-	Cid     uint64      `json:"cid"`
-	Count   uint64      `json:"count"`
-	Main    bool        `json:"main"`
-	Last    bool        `json:"last"`
-	Corrupt string      `json:"corrupt"` // "", "main", "ext"
-	Pad     bool        `json:"pad"`     // the flipped bit is in the 1 KB header block (no effective checksum)
-	BadDid  bool        `json:"baddid"`
-	BadVer  bool        `json:"badver"`
-	Ret     bool        `json:"ret"`
-	Tracked []ckTracked `json:"tracked"`
-	Tmp     [][2]uint64 `json:"tmp"`   // temporary directories: [index, from]
-	Final   []uint64    `json:"final"` // finalized snapshot directories: index
-	Other   []string    `json:"other"` // anything else under the snapshot root
-	Notes   int         `json:"notes"`
-	Same    bool        `json:"same"` // files of the finalized directory equal the source
-	Removed bool        `json:"removed"`
-	Slots   uint64      `json:"slots"`
-	GcTick  uint64      `json:"gctick"`
-	Timeout uint64      `json:"timeout"`
-	NMain   []int       `json:"nmain"`
-	Msg     string      `json:"msg,omitempty"`
-	Streamed bool       `json:"streamed"` // chunks produced by the real rsm.ChunkWriter
+	T        int         `json:"t"`
+	I        int         `json:"i"`
+	Op       string      `json:"op"`
+	S        int         `json:"s"`
+	From     uint64      `json:"from"`
+	Index    uint64      `json:"index"`
+	Cid      uint64      `json:"cid"`
+	Count    uint64      `json:"count"`
+	Main     bool        `json:"main"`
+	Last     bool        `json:"last"`
+	Corrupt  string      `json:"corrupt"` // "", "main", "ext"
+	Pad      bool        `json:"pad"`     // the flipped bit is in the 1 KB header block (no effective checksum)
+	BadDid   bool        `json:"baddid"`
+	BadVer   bool        `json:"badver"`
+	Ret      bool        `json:"ret"`
+	Tracked  []ckTracked `json:"tracked"`
+	Tmp      [][2]uint64 `json:"tmp"`   // temporary directories: [index, from]
+	Final    []uint64    `json:"final"` // finalized snapshot directories: index
+	Other    []string    `json:"other"` // anything else under the snapshot root
+	Notes    int         `json:"notes"`
+	Same     bool        `json:"same"` // files of the finalized directory equal the source
+	Removed  bool        `json:"removed"`
+	Slots    uint64      `json:"slots"`
+	GcTick   uint64      `json:"gctick"`
+	Timeout  uint64      `json:"timeout"`
+	NMain    []int       `json:"nmain"`
+	Msg      string      `json:"msg,omitempty"`
+	Streamed bool        `json:"streamed"` // chunks produced by the real rsm.ChunkWriter
 }
 
 type ckSim struct {
